@@ -43,7 +43,12 @@ func main() {
 	replay := flag.String("replay", "", "print a stored report file")
 	noEvidence := flag.Bool("no-evidence", false, "do not write evidence / report files (used by the mutation self-test)")
 	mutdir := flag.String("mutants", "/verif/mutants", "directory with mutation self-test patches (thorough tier)")
+	probeWhat := flag.String("probe", "", "development aid: print an internal extraction (raw)")
 	flag.Parse()
+	if *probeWhat != "" {
+		probe(*probeWhat, *repo)
+		return
+	}
 
 	if *replay != "" {
 		b, err := os.ReadFile(*replay)
